@@ -598,7 +598,7 @@ fn written_slots(o: &Obs) -> Vec<(usize, [usize; 4])> {
 
 pub fn check_c16(r: &Runner, ctx: &mut Ctx, l: &mut Local, rec: &CaseRec) -> Result<(), Violation> {
     let kind = rec.kind();
-    let mut nt = false;
+    let nt;
     if rec.sub == "c16-headers-vs-message" {
         // parse_headers(h) vs request/response whose start line is followed by h
         let h = &rec.buf;
@@ -699,7 +699,7 @@ pub fn check_c16(r: &Runner, ctx: &mut Ctx, l: &mut Local, rec: &CaseRec) -> Res
         }
     }
     if let Some((_, o, _)) = &base {
-        nt = rec.buf.contains(&b':') && (o.version.is_some() || o.method.is_some());
+        let nt = rec.buf.contains(&b':') && (o.version.is_some() || o.method.is_some());
         account_std(r, l, rec, o, nt, "entry points of one kind");
     }
     Ok(())
